@@ -25,7 +25,8 @@ from ..cli import digest
 
 PROP = 'C05'
 LEVEL = 'exploration'
-RULE = ('program: random chained operations on core and IOAPI files with a '
+RULE = ('program: random chained operations (methods, functional forms of '
+        'core/_functions.py, pointwise selections) on core and IOAPI files with a '
         'deep snapshot of every input before/after each operation and a '
         'write-sentinel alias test on every result; query: 20 query kinds '
         '(getTimes incl. bounds, val2idx all methods, time2idx, time2t, '
